@@ -6,6 +6,7 @@
 From Coq Require Import ZArith List String.
 From Coq.Strings Require Import Byte.
 From TS Require Import Bytes Codec Ops Names Asm BytesLemmas CodecProofs AsmProofs Assembler AssemblerProofs Tokenizer TokenizerProofs.
+From TS Require MacroFacts.
 Import ListNotations.
 Open Scope list_scope.
 Open Scope Z_scope.
@@ -164,6 +165,12 @@ Definition C11_push_of_a_comptime_block := @push_comptime.
 Definition C11_macro_expansion := @macro_expansion.
 Definition C11_macro_expansion_example := macro_expansion_example.
 Definition C11_aliases_inside_def_fixed := fixed_def_alias.          (* D21, repaired *)
+(* macro calls: every parameter replaced by its own argument, once (simultaneous substitution); the number of values is checked in
+   both directions; PUSH of an empty value is rejected whichever way the value is supplied (computed facts about the model of the
+   real compiler front end; the same sources are compiled by the real compiler on every run) *)
+Definition C11_macro_substitution_is_simultaneous := MacroFacts.macro_substitution_is_simultaneous.
+Definition C11_macro_arity_is_checked := MacroFacts.macro_arity_is_checked.
+Definition C11_push_of_an_empty_value_is_rejected := MacroFacts.push_of_an_empty_value_is_rejected.
 Check C11_definitions_emit_no_code.
 Check C11_unused_definition_changes_nothing.
 Check C11_comptime_block_is_its_assembled_bytes.
@@ -209,3 +216,6 @@ Print Assumptions C11_decode1_encode1.
 Print Assumptions C11_push_by_length.
 Print Assumptions C11_push_none.
 Print Assumptions C11_push_minimal.
+Print Assumptions C11_macro_substitution_is_simultaneous.
+Print Assumptions C11_macro_arity_is_checked.
+Print Assumptions C11_push_of_an_empty_value_is_rejected.
